@@ -11,6 +11,7 @@ import numpy as np
 
 import common
 from drivers import ranksel
+from gen import translate_rank
 
 RULE = ("injected spectra as in C08 plus direct calls on tensors U.diag(s).V with Haar-random U,V and prescribed s; "
         "non-trivial = at least one singular value cut, or an exception; distinct by (spectrum, parameters)")
@@ -18,6 +19,11 @@ TRUSTED = ["correspondence harness: robust_svd replaced by a spectrum-injecting 
            "modelled, not verified: LAPACK SVD validity; the inequality 'discarded weight <= threshold' is proved over exact "
            "rationals, the binary64 accumulation is compared bit-exactly but not proved to preserve it"]
 ASSUMES = ["singular values are returned non-increasing and non-negative"]
+
+
+def regenerate(ctx):
+    """coq/Gen/RankGen.v from the current source of split_mps_tensor / two_site_svd / truncated_right_svd (fail closed)"""
+    translate_rank.regenerate()
 
 
 def correspond(ctx):
@@ -127,7 +133,9 @@ def direct_tss(args):
     if abs(err2 - disc) > 1e-9 * norm2 + 1e-13:
         return f"two_site_svd: |theta - A.B|^2 = {err2:.3e}, discarded weight {disc:.3e}"
     if args["maxb"] is None or keep < args["maxb"]:
-        if disc >= args["thr"] * (1 + 1e-9) + 1e-15 and keep >= 2:
+        # slack: the singular values LAPACK returns differ from the prescribed ones by ~eps * s_max
+        slack = 1e-9 * args["thr"] + 20 * 2.3e-16 * float(s[0]) * float(np.sum(s[keep:])) + 1e-300
+        if disc >= args["thr"] + slack and keep >= 2:
             return f"two_site_svd discarded {disc:.3e} >= threshold {args['thr']:.3e} without being forced by the cap"
     if args["maxb"] is not None and keep > args["maxb"]:
         return f"two_site_svd kept {keep} > cap {args['maxb']}"
@@ -213,6 +221,12 @@ def search(ctx):
         s = ranksel.spectrum(rng, k, ranksel.KINDS[i % len(ranksel.KINDS)])
         args = dict(seed=int(rng.integers(0, 2**31)), d=d, L=L, R=R, s=s, thr=float(10 ** rng.uniform(-13, -1)),
                     maxb=None if rng.random() < 0.4 else int(rng.integers(1, 6)))
+        if ranksel.KINDS[i % len(ranksel.KINDS)] == "widerange" and k >= 3:
+            # thresholds well inside the gaps of the cumulative tail weight (no tie with LAPACK's rounding), and tiny ones
+            cum = np.cumsum(np.array(s[::-1]) ** 2)
+            j = int(rng.integers(0, k - 1))
+            args["thr"] = float(rng.choice([0.0, 1e-20, 1e-12, float(np.sqrt(cum[j] * cum[j + 1]))]))
+            ctx.count("direct_two_site_svd_widerange")
         why = direct_tss(args)
         ctx.case(nontrivial_key=("tss", i))
         ctx.count("direct_two_site_svd")
